@@ -508,3 +508,9 @@ Print Assumptions C18_source_gcd_correct.
 
 Example source_gcd_nonvacuous : lb_gcd 4 12 18 = GRet 6 /\ lb_gcd 0 0 5 = GRet 5 /\ lb_gcd 1 7 0 = GRet 7.
 Proof. vm_compute. repeat split. Qed.
+
+(* T2: RoundRobinLoadBalance.getIndex as regenerated from the source (sequential meaning of the atomics) is rr_get *)
+From HV Require Import Proofs.GoFuncsAtomicProofs.
+Theorem C18_source_rr_getIndex_is_the_model : forall n idx, rr_getIndex n idx = GRet (rr_get n idx).
+Proof. exact rr_getIndex_refines. Qed.
+Print Assumptions C18_source_rr_getIndex_is_the_model.
